@@ -15,6 +15,15 @@ JSON + Content-Type + caller headers win, every Upload position null, map == exa
 distinct Upload sent once with its own filename/type/bytes, six configurations identical, caller's
 variables and the client object untouched, concurrent calls (asyncio.gather / threads on ONE client)
 give the requests of the sequential run.
+
+Argument objects are state too: SEQUENCES of calls that share their argument objects (one headers dict,
+one variables dict, the same Upload objects, one params dict handed to several calls, JSON and multipart
+calls mixed, on one client or hopping between the six configurations) are driven through the real clients;
+every request of the sequence is compared with the reference-level model `executeH`/`runSeqH`
+(Model/BaseClientHeap.lean: the caller's dicts live in a heap the model returns), the real objects are
+deep-snapshotted before and after EVERY call and compared both with the model's heap (correspondence) and
+with the snapshot taken before the first call (oracle: `execute` leaves what it is given untouched, and each
+request is judged against the call the caller wrote, whatever earlier calls did).
 """
 from __future__ import annotations
 
@@ -173,6 +182,97 @@ class Built:
         self.op_name: Optional[str] = spec["opName"]
 
 
+def step_call_spec(seq: Dict[str, Any], k: int) -> Dict[str, Any]:
+    """the single call the caller WROTE as step k of a sequence (contents of the shared objects as built)"""
+    st = seq["steps"][k]
+    return {"query": st["query"], "opName": st["opName"],
+            "variables": None if st["variables"] is None else seq["var_objs"][st["variables"]],
+            "headers": None if st["headers"] is None else seq["hdr_objs"][st["headers"]],
+            "kwargs": st.get("kwargs", []), "uploads": seq.get("uploads", [])}
+
+
+class SeqBuilt:
+    """the argument objects of a sequence of calls, built ONCE and shared by its steps"""
+
+    def __init__(self, spec: Dict[str, Any]):
+        m = models()
+        self.spec = spec
+        self.uploads = [
+            m["Upload"](filename=u["filename"], content=io.BytesIO(base64.b64decode(u["content_b64"])), content_type=u["content_type"])
+            for u in spec.get("uploads", [])
+        ]
+        self.upload_ids = {id(u): i for i, u in enumerate(self.uploads)}
+        self.hdr_objs: List[Dict[str, str]] = [{k: v for k, v in hs} for hs in spec["hdr_objs"]]
+        self.var_objs: List[Dict[str, Any]] = [{key: build_value(sv, self.uploads) for key, sv in vs} for vs in spec["var_objs"]]
+        self.kw_objs: Dict[str, Any] = {}  # one object per distinct (keyword, value): shared by the steps that pass it
+        for stp in spec["steps"]:
+            for key, val in stp.get("kwargs", []):
+                self.kw_value(key, val)
+
+    def kw_value(self, key: str, val: Any) -> Any:
+        if not isinstance(val, (dict, list)):
+            return val
+        ident = key + ":" + json.dumps(val, sort_keys=True)
+        if ident not in self.kw_objs:
+            self.kw_objs[ident] = json.loads(json.dumps(val))
+        return self.kw_objs[ident]
+
+    def step(self, k: int) -> "Built":
+        st = self.spec["steps"][k]
+        b = Built.__new__(Built)
+        b.spec = step_call_spec(self.spec, k)
+        b.uploads, b.upload_ids = self.uploads, self.upload_ids
+        b.variables = None if st["variables"] is None else self.var_objs[st["variables"]]
+        b.kwargs = {}
+        if st["headers"] is not None:
+            b.kwargs["headers"] = self.hdr_objs[st["headers"]]
+        for key, val in st.get("kwargs", []):
+            b.kwargs[key] = self.kw_value(key, val)
+        b.query, b.op_name = st["query"], st["opName"]
+        return b
+
+    def heap(self) -> Dict[str, Any]:
+        """the caller's dicts in the wire form of the model's `Heap`"""
+        return {"hdrs": [[[str(k), v] for k, v in d.items()] for d in self.hdr_objs],
+                "vars": [[[str(k), to_pv(v, self.upload_ids)] for k, v in d.items()] for d in self.var_objs]}
+
+    def snapshot(self) -> Dict[str, Any]:
+        """deep, by-value picture of everything the caller handed over (stream positions excluded: reading
+        a file object is httpx's business and it rewinds before every send)"""
+        return {**self.heap(), "kw": {k: snap_value(v) for k, v in sorted(self.kw_objs.items())}, "uploads": snap_uploads(self.uploads)}
+
+
+def snap_value(v: Any) -> Any:
+    if isinstance(v, dict):
+        return {"dict": [[k if isinstance(k, str) else repr(k), snap_value(x)] for k, x in v.items()]}
+    if isinstance(v, (list, tuple)):
+        return {type(v).__name__: [snap_value(x) for x in v]}
+    if v is None or type(v) in (bool, int, float, str):
+        return v
+    return repr(v)
+
+
+def snap_uploads(uploads: List[Any]) -> List[Any]:
+    out = []
+    for u in uploads:
+        c = getattr(u, "content", None)
+        data = base64.b64encode(c.getvalue()).decode() if isinstance(c, io.BytesIO) else repr(c)
+        out.append([getattr(u, "filename", None), getattr(u, "content_type", None), id(c), bool(getattr(c, "closed", False)), data])
+    return out
+
+
+def snap_call(b: "Built") -> str:
+    """deep picture of the REAL objects one call is given (variables, every keyword argument, Uploads)"""
+    variables = None if b.variables is None else [[str(k), to_pv(v, b.upload_ids)] for k, v in b.variables.items()]
+    return json.dumps({"variables": variables, "kwargs": {k: snap_value(v) for k, v in b.kwargs.items()},
+                       "uploads": snap_uploads(b.uploads)}, sort_keys=True, default=repr)
+
+
+def changed_parts(before: Dict[str, Any], after: Dict[str, Any]) -> List[str]:
+    names = {"hdrs": "headers-dict", "vars": "variables-dict", "kw": "keyword-argument-object", "uploads": "upload-object"}
+    return [names[k] for k in ("hdrs", "vars", "kw", "uploads") if json.dumps(before.get(k), sort_keys=True, default=repr) != json.dumps(after.get(k), sort_keys=True, default=repr)]
+
+
 # --------------------------------------------------------------------------------------------
 # Python value -> PV wire form (third-party results computed with the real libraries)
 # --------------------------------------------------------------------------------------------
@@ -287,6 +387,59 @@ def request_ir(request: httpx.Request) -> Dict[str, Any]:
     return ir
 
 
+def client_deep(client: Any) -> str:
+    """the contents (not just the identity) of the mutable things a client object holds: its attribute values,
+    its `headers` dict, the default headers / params / cookies of its httpx client"""
+    out: Dict[str, Any] = {}
+    for k, v in vars(client).items():
+        out[k] = snap_value(v) if isinstance(v, (dict, list, tuple, str, int, float, bool, type(None))) else type(v).__name__
+    http = getattr(client, "http_client", None)
+    try:
+        out["http.headers"] = sorted(raw_pairs(http.headers.raw))
+        out["http.params"] = str(http.params)
+        out["http.cookies"] = sorted(http.cookies.items())
+    except (AttributeError, TypeError) as e:
+        out["http"] = "observer: %r" % e
+    return json.dumps(out, sort_keys=True, default=repr)
+
+
+def raw_pairs(raw: Any) -> List[List[str]]:
+    return [[k.decode("latin1"), v.decode("latin1")] for k, v in raw]
+
+
+_BASELINE: Dict[str, Dict[str, str]] = {}
+
+
+def baseline_headers(r: str) -> Dict[str, str]:
+    """what httpx itself puts on a POST of this kind for a client with CLIENT_HEADERS (third-party, observed):
+    lower-cased field name -> value"""
+    if r not in _BASELINE:
+        with httpx.Client(headers=dict(CLIENT_HEADERS)) as c:
+            if r == "json":
+                req = c.build_request("POST", URL, content="{}")
+            else:
+                req = c.build_request("POST", URL, data={"operations": "{}", "map": "{}"}, files={"0": ("f", io.BytesIO(b"x"), "text/plain")})
+        _BASELINE[r] = {k.lower(): v for k, v in raw_pairs(req.headers.raw)}
+    return _BASELINE[r]
+
+
+def headers_from_this_call_only(b: "Built", ir: Dict[str, Any]) -> Optional[str]:
+    """every header field of the request comes from this call's `headers=`, from the client's configuration or
+    from httpx — nothing left behind by another call; and a field this call does not supply has its configured value"""
+    base = baseline_headers(ir["r"])
+    caller = {k.lower() for k, _ in (b.spec.get("headers") or [])}
+    volatile = {"content-length", "content-type", "transfer-encoding"}
+    for name, val in ir["raw_headers"]:
+        n = name.lower()
+        if n in caller or n in volatile:
+            continue
+        if n not in base:
+            return "header-not-from-this-call"
+        if base[n] != val:
+            return "configured-header-value-replaced"
+    return None
+
+
 class Rig:
     """the six real client configurations on MockTransports that record what they are asked to send"""
 
@@ -310,6 +463,7 @@ class Rig:
         kind, tracer, client = self.clients[i]
         self.captured[i].clear()
         before = dict(vars(client))
+        deep_before = client_deep(client)
         try:
             if clients.is_async(kind):
                 resp = self.loop.run_until_complete(client.execute(b.query, b.op_name, b.variables, **b.kwargs))
@@ -329,7 +483,8 @@ class Rig:
         except Exception as e:  # noqa: BLE001 - undecodable body
             return {"r": "undecodable", "exc": f"{type(e).__name__}: {e}", "body_latin1": self.captured[i][0].content[:300].decode("latin1")}
         ir["response_ok"] = isinstance(resp, httpx.Response) and resp.status_code == 200 and resp.json() == {"data": {"ok": True}}
-        ir["client_unchanged"] = before.keys() == after.keys() and all(before[k] is after[k] for k in before)
+        ir["client_unchanged"] = (before.keys() == after.keys() and all(before[k] is after[k] for k in before)
+                                  and deep_before == client_deep(client))
         return ir
 
     def close(self) -> None:
@@ -507,7 +662,7 @@ def oracle(b: Built, shape: Shape, ir: Dict[str, Any]) -> Optional[str]:
         return "response-not-returned"
     if not ir.get("client_unchanged"):
         return "client-object-modified"
-    sig = caller_headers_ok(b, ir)
+    sig = caller_headers_ok(b, ir) or headers_from_this_call_only(b, ir)
     if sig:
         return sig
     for k, v in b.spec.get("kwargs", []):
@@ -743,6 +898,70 @@ def gen_call(rng: Any, n: int) -> Dict[str, Any]:
     return Gen(rng, "noupload" if rng.random() < 0.15 else "mixed").call(n)
 
 
+def gen_sequence(rng: Any, n: int) -> Dict[str, Any]:
+    """2-5 calls that draw their `variables` / `headers=` objects (and Uploads, params dicts) from one small pool:
+    the same object is handed to several calls, JSON and multipart calls mixed, on one configuration
+    (`uniform`: the whole sequence is run once per configuration and the six runs are compared) or hopping
+    between the six configurations"""
+    g = Gen(rng, "mixed")
+    hdr_objs: List[List[List[str]]] = []
+    for _ in range(rng.randint(1, 2)):
+        hs = g.headers()
+        if hs is None:
+            hs = [] if rng.random() < 0.3 else [[rng.choice(HEADER_NAMES), rng.choice(["v1", "Bearer t"])]]
+        hdr_objs.append(hs)
+    var_objs: List[List[Any]] = []
+    n_var = rng.randint(1, 3)
+    for j in range(n_var):
+        g.profile = "noupload" if rng.random() < (0.6 if j == 0 else 0.25) else "mixed"
+        vs = g.call(n)["variables"]
+        if vs is None:
+            vs = []
+        if g.profile == "mixed" and rng.random() < 0.5 and not any(k == "file" for k, _ in vs):
+            vs.append(["file", g.upload_ref()])
+        var_objs.append(vs)
+    uniform = rng.random() < 0.5
+    cfg0 = rng.randrange(len(CONFIGS))
+    params = {"tenant": rng.choice(["t1", "t 2"])}
+    steps = []
+    for k in range(rng.randint(2, 5)):
+        kwargs: List[List[Any]] = []
+        if rng.random() < 0.3:
+            kwargs.append(["timeout", rng.choice([3, 7.5, 0.25])])
+        if rng.random() < 0.3:
+            kwargs.append(["params", params])
+        steps.append({
+            "query": "query S%d_%d { x }" % (n, k), "opName": rng.choice(["S%d" % n, None, "upload_File"]),
+            "variables": None if rng.random() < 0.08 else rng.randrange(n_var),
+            "headers": None if rng.random() < 0.12 else rng.randrange(len(hdr_objs)),
+            "kwargs": kwargs, "config": cfg0 if rng.random() < 0.4 else rng.randrange(len(CONFIGS)),
+        })
+    return {"uniform": uniform, "uploads": g.uploads, "hdr_objs": hdr_objs, "var_objs": var_objs, "steps": steps}
+
+
+HAND_SEQUENCES: List[Dict[str, Any]] = [
+    # one headers dict: JSON call, then a call with an Upload, then the JSON call again (one variables dict twice)
+    {"uniform": True, "uploads": [{"filename": "a.txt", "content_type": "text/plain", "content_b64": "YWJj"}],
+     "hdr_objs": [[["Authorization", "Bearer t"]]],
+     "var_objs": [[["n", {"k": "int", "v": 1}]], [["file", {"k": "upload", "u": 0}], ["again", {"k": "list", "v": [{"k": "upload", "u": 0}]}]]],
+     "steps": [{"query": "query P { p }", "opName": "P", "variables": 0, "headers": 0, "kwargs": [], "config": 0},
+               {"query": "mutation U { u }", "opName": "U", "variables": 1, "headers": 0, "kwargs": [["params", {"tenant": "t1"}]], "config": 0},
+               {"query": "query P { p }", "opName": "P", "variables": 0, "headers": 0, "kwargs": [["params", {"tenant": "t1"}]], "config": 0},
+               {"query": "mutation U { u }", "opName": "U", "variables": 1, "headers": None, "kwargs": [], "config": 0}]},
+    # the same objects hopping over the six configurations, an empty headers dict, a raw dict + a model in the variables
+    {"uniform": False, "uploads": [{"filename": "p.png", "content_type": "image/png", "content_b64": "AP8NCi0teA=="}],
+     "hdr_objs": [[], [["X-Trace", "1"], ["Content-Type", "application/graphql-response+json"]]],
+     "var_objs": [[["where", {"k": "dict", "v": [["f", {"k": "upload", "u": 0}], ["n", {"k": "none"}]]}],
+                   ["m", {"k": "model", "cls": "Inner", "fields": [["file_", {"k": "upload", "u": 0}], ["note", {"k": "str", "v": "n"}]]}]],
+                  [["where", {"k": "dict", "v": [["n", {"k": "int", "v": 0}]]}]]],
+     "steps": [{"query": "query A { a }", "opName": None, "variables": 1, "headers": 0, "kwargs": [], "config": 1},
+               {"query": "mutation B { b }", "opName": "B", "variables": 0, "headers": 0, "kwargs": [], "config": 4},
+               {"query": "query C { c }", "opName": "C", "variables": 1, "headers": 1, "kwargs": [["timeout", 3]], "config": 5},
+               {"query": "mutation D { d }", "opName": "D", "variables": 0, "headers": 1, "kwargs": [], "config": 2},
+               {"query": "query E { e }", "opName": "E", "variables": None, "headers": 0, "kwargs": [], "config": 3}]},
+]
+
+
 HAND_CASES: List[Dict[str, Any]] = [
     {"query": "query A { a }", "opName": "A", "variables": None, "headers": None, "kwargs": [], "uploads": []},
     {"query": "query A { a }", "opName": None, "variables": [], "headers": [["Content-Type", "application/graphql-response+json"]], "kwargs": [["timeout", 3]], "uploads": []},
@@ -826,9 +1045,9 @@ def judge(ctx: Ctx, st: Optional[LeanStatus], specs: List[Dict[str, Any]], res: 
         views = []
         for i, (kind, tracer) in enumerate(CONFIGS):
             b = Built(spec)  # fresh objects (fresh Upload streams) for every real call
-            snap_before = json.dumps(model_line(b, kind, tracer), sort_keys=True, default=repr)
+            snap_before = snap_call(b)
             ir = rig.execute(i, b)
-            snap_after = json.dumps(model_line(b, kind, tracer), sort_keys=True, default=repr)
+            snap_after = snap_call(b)
             case = {"call": spec, "kind": kind, "tracer": tracer}
             res.count("request:" + str(ir.get("r")))
             if ir.get("r") == "observer":
@@ -837,7 +1056,8 @@ def judge(ctx: Ctx, st: Optional[LeanStatus], specs: List[Dict[str, Any]], res: 
             if ir.get("r") == "error":
                 res.count("exception:" + ir["exc"])
             if snap_before != snap_after and in_scope:
-                res.failures.append(Failure("caller-variables-modified", None, case, "the variables passed in were changed by execute"))
+                res.failures.append(Failure("caller-arguments-modified", None, case,
+                                            "an object passed to execute (variables / a keyword argument such as headers= / an Upload) is not what it was before the call"))
             sig = None
             if in_scope:
                 sig = oracle(b, shape, ir)
@@ -878,6 +1098,137 @@ def judge(ctx: Ctx, st: Optional[LeanStatus], specs: List[Dict[str, Any]], res: 
             res.sample({"input": spec, "impl": impl_summary(ir), "model": model_out[n * len(CONFIGS)]["request"]}, limit=4)
 
 
+def seq_model_line(sb: SeqBuilt, cfgs: List[int]) -> Dict[str, Any]:
+    steps = []
+    for st, cfg in zip(sb.spec["steps"], cfgs):
+        kind, tracer = CONFIGS[cfg]
+        steps.append({"kind": kind, "tracer": tracer is not None, "url": URL, "query": st["query"], "opName": st["opName"],
+                      "variables": st["variables"], "headers": st["headers"],
+                      "kwargs": [[k, wire.enc(v)] for k, v in st.get("kwargs", [])]})
+    return {"op": "sequence", **sb.heap(), "steps": steps}
+
+
+def seq_passes(spec: Dict[str, Any]) -> List[List[int]]:
+    n = len(spec["steps"])
+    if spec.get("uniform"):
+        return [[i] * n for i in range(len(CONFIGS))]
+    return [[st["config"] for st in spec["steps"]]]
+
+
+def judge_sequences(ctx: Ctx, st: Optional[LeanStatus], seqs: List[Dict[str, Any]], res: Result, rig: Rig) -> None:
+    """calls that SHARE their argument objects: every request of every sequence vs the model and the oracle,
+    the real argument objects vs the model's heap and vs what they were before the first call"""
+    use_model = st is not None and st.driver_ok
+    pristine = [SeqBuilt(s) for s in seqs]
+    model_out: Optional[List[Any]] = None
+    offsets: List[int] = []
+    if use_model:
+        lines = []
+        for sb in pristine:
+            offsets.append(len(lines))
+            lines += [seq_model_line(sb, cfgs) for cfgs in seq_passes(sb.spec)]
+        model_out = common.run_driver(ctx.prop, lines)
+    for n, spec in enumerate(seqs):
+        if flooded(res):
+            return
+        sb0 = pristine[n]
+        nsteps = len(spec["steps"])
+        builts0 = [sb0.step(k) for k in range(nsteps)]
+        shapes = [Shape(b) for b in builts0]          # computed on objects no call has touched yet
+        trigs = [py_triggers(b, sh) for b, sh in zip(builts0, shapes)]
+        valids = [py_valid(b, sh) for b, sh in zip(builts0, shapes)]
+        kinds = ["multipart" if sh.upload_paths else "json" for sh in shapes]
+        res.count("sequence:steps", nsteps)
+        res.count("sequence:uniform-x6" if spec.get("uniform") else "sequence:hopping-configurations")
+        for what, key in (("headers", "headers"), ("variables", "variables")):
+            refs = [stp[key] for stp in spec["steps"] if stp[key] is not None]
+            if len(refs) > len(set(refs)):
+                res.count("sequence:one-%s-dict-given-to-several-calls" % what)
+        labels = set()
+        for a in range(nsteps):
+            for b_ in range(a + 1, nsteps):
+                ha, hb = spec["steps"][a]["headers"], spec["steps"][b_]["headers"]
+                if ha is not None and ha == hb and kinds[a] != kinds[b_] and valids[a] and valids[b_]:
+                    labels.add("sequence:one-headers-dict-%s-then-%s" % (kinds[a], kinds[b_]))
+        for lab in labels:
+            res.count(lab)   # per sequence: the measured probability of the shape is count / #sequences
+        res.count("sequence:count")
+        ups = [{u for _, u in sh.upload_paths} for sh in shapes]
+        if any(ups[a] & ups[b_] for a in range(nsteps) for b_ in range(a + 1, nsteps)):
+            res.count("sequence:one-Upload-sent-by-several-calls")
+        per_pass_views: List[List[Any]] = []
+        for pn, cfgs in enumerate(seq_passes(spec)):
+            sb = SeqBuilt(spec)
+            base = sb.snapshot()
+            so_far_in_scope = True
+            reported_args = False
+            mo_seq = model_out[offsets[n] + pn] if model_out is not None else None
+            views = []
+            for k, cfg in enumerate(cfgs):
+                kind, tracer = CONFIGS[cfg]
+                b = sb.step(k)
+                ir = rig.execute(cfg, b)
+                after = sb.snapshot()
+                case = {"sequence": spec, "step": k, "configurations": cfgs}
+                res.count("request:" + str(ir.get("r")))
+                res.count("sequence:real-calls")
+                so_far_in_scope = so_far_in_scope and valids[k]
+                if ir.get("r") == "observer":
+                    res.mismatches.append(Mismatch("execute", case, "observer: " + ir["exc"], None))
+                    continue
+                changed = changed_parts(base, after)
+                if changed and so_far_in_scope and not reported_args:
+                    reported_args = True
+                    res.failures.append(Failure("caller-arguments-modified", None, case,
+                                                f"after call {k} ({kind}/tracer={tracer}) the caller's {', '.join(changed)} is not what the caller built: "
+                                                f"{json.dumps({p: after[p] for p in ('hdrs', 'kw')}, default=repr)[:300]}"))
+                sig = None
+                if valids[k]:
+                    sig = oracle(b, shapes[k], ir)   # judged against the call the caller WROTE
+                    if sig:
+                        t = None
+                        if sig == "caller-content-type-does-not-win" and trigs[k][TRIG_F1]:
+                            t = TRIG_F1
+                        elif sig.startswith("no-request-sent:PydanticSerializationError") and trigs[k][TRIG_F2]:
+                            t, sig = TRIG_F2, "no-request-sent"
+                        res.failures.append(Failure(sig, t, case, f"call {k} of a sequence sharing argument objects, {kind}/tracer={tracer}: {json.dumps(impl_summary(ir), default=repr)[:400]}"))
+                if mo_seq is not None:
+                    mo = mo_seq["steps"][k]
+                    if mo.get("request") is None:
+                        res.mismatches.append(Mismatch("sequence-well-formed", case, ir.get("r"), "illFormed"))
+                        continue
+                    mv = model_view(mo["request"], b)
+                    iv = impl_view(ir, mo["request"], b)
+                    if not views_equal(iv, mv):
+                        region = next((t for t in (TRIG_F2, TRIG_F1) if trigs[k][t]), None)
+                        res.mismatches.append(Mismatch("execute-in-sequence", case, iv, mv, trigger=region if (valids[k] and sig is None) else None))
+                    if ir.get("r") in ("json", "multipart") and mo["client_unchanged"] != ir.get("client_unchanged"):
+                        res.mismatches.append(Mismatch("client-frame", case, ir.get("client_unchanged"), mo["client_unchanged"]))
+                    real_heap = {"hdrs": after["hdrs"], "vars": after["vars"]}
+                    if not common.same_json(real_heap, mo["heap"]):
+                        res.mismatches.append(Mismatch("argument-heap-after-call", case, real_heap["hdrs"], mo["heap"]["hdrs"]))
+                    for t in (TRIG_F1, TRIG_F2):
+                        if mo.get(t) != trigs[k][t]:
+                            res.mismatches.append(Mismatch("trigger-agreement:" + t, case, trigs[k][t], mo.get(t)))
+                    if mo.get("valid") != valids[k]:
+                        res.mismatches.append(Mismatch("validity-agreement", case, valids[k], mo.get("valid")))
+                    if k == nsteps - 1:
+                        whole = [model_view(r, sb.step(j)) if r is not None else None for j, r in enumerate(mo_seq["requests"])]
+                        stepwise = [model_view(x["request"], sb.step(j)) if x.get("request") is not None else None for j, x in enumerate(mo_seq["steps"])]
+                        if not common.same_json(whole, stepwise) or not common.same_json(mo_seq["final_heap"], mo["heap"]):
+                            res.mismatches.append(Mismatch("runSeqH-vs-stepwise", case, stepwise, whole))
+                views.append(comparable_ir(ir))
+            per_pass_views.append(views)
+        if len(per_pass_views) > 1 and all(valids):
+            for pn, views in enumerate(per_pass_views[1:], start=1):
+                if not common.same_json(views, per_pass_views[0], ordered=True):
+                    kind, tracer = CONFIGS[pn]
+                    res.failures.append(Failure("clients-disagree", None, {"sequence": spec, "configurations": [pn] * nsteps},
+                                                f"the sequence on sync vs on {kind}/tracer={tracer} sent different requests"))
+                    break
+        res.seen(spec, nontrivial=True)
+
+
 def impl_summary(ir: Dict[str, Any]) -> Dict[str, Any]:
     keep = ("r", "exc", "body", "operations", "map", "part_names")
     out = {k: v for k, v in ir.items() if k in keep}
@@ -911,7 +1262,7 @@ def _close(kind: str, client: Any) -> None:
         pass
 
 
-def _run_calls(kind: str, tracer: Optional[str], builts: List[Built], concurrent: bool, delays: Dict[str, float]) -> Tuple[List[str], Dict[str, Any]]:
+def _run_calls(kind: str, tracer: Optional[str], builts: List[Any], concurrent: bool, delays: Dict[str, float]) -> Tuple[List[str], Dict[str, Any]]:
     """run the calls on ONE fresh client, one after the other or all in flight; returns outcomes and the
     requests seen by the transport, keyed by the call's query text"""
     got: Dict[str, Any] = {}
@@ -981,12 +1332,30 @@ def concurrency(ctx: Ctx, res: Result, rounds: int, width: int) -> None:
             s["query"] = "query C%d_%d { x }" % (rnd, n)  # the call's identity on the wire
             specs.append(s)
         delays = {s["query"]: rng.choice([0.0, 0.0, 0.001, 0.003]) for s in specs}
+        # every second round the calls in flight are handed ONE headers dict object (and one params dict);
+        # the reference run gives each call objects of its own
+        shared_hs: Optional[List[List[str]]] = None
+        sharers: List[int] = []
+        if rnd % 2 == 1:
+            shared_hs = Gen(rng).headers() or [["Authorization", "Bearer t"]]
+            sharers = [n for n in range(width) if rng.random() < 0.8]
+            for n in sharers:
+                specs[n]["headers"] = shared_hs
         for kind, tracer in CONFIGS:
             seq_out, sequential = _run_calls(kind, tracer, [Built(s) for s in specs], False, {})
-            con_out, concurrent = _run_calls(kind, tracer, [Built(s) for s in specs], True, delays)
+            con_builts = [Built(s) for s in specs]
+            shared_obj = {k: v for k, v in (shared_hs or [])}
+            for n in sharers:
+                con_builts[n].kwargs["headers"] = shared_obj
+            con_out, concurrent = _run_calls(kind, tracer, con_builts, True, delays)
             res.count("concurrency:calls-in-flight", len(specs))
+            if sharers:
+                res.count("concurrency:calls-in-flight-sharing-one-headers-dict", len(sharers))
             res.evaluations += len(specs)
-            case = {"calls": specs, "kind": kind, "tracer": tracer}
+            case = {"calls": specs, "kind": kind, "tracer": tracer, "share_headers_object": sharers}
+            if sharers and shared_obj != {k: v for k, v in (shared_hs or [])}:
+                res.failures.append(Failure("caller-arguments-modified", None, case,
+                                            f"the headers dict shared by the calls in flight is now {shared_obj!r}"))
             if seq_out != con_out:
                 res.failures.append(Failure("concurrent-outcomes-differ", None, case, f"sequential {seq_out} concurrent {con_out}"))
             elif not common.same_json(sequential, concurrent):
@@ -1048,7 +1417,9 @@ def replay_witnesses(ctx: Ctx, res: Result, rig: Rig) -> None:
 def run(ctx: Ctx, st: Optional[LeanStatus]) -> Result:
     res = Result()
     res.rule = ("seeded call specs (type-directed variables trees x caller headers x timeout/params) executed by the six real "
-                "client configurations; a case is non-trivial when its variables are non-empty; distinct = distinct call specs")
+                "client configurations, plus seeded SEQUENCES of 2-5 calls sharing their argument objects (headers dict, variables dict, "
+                "Uploads, params dict; on one configuration x6 or hopping between configurations); a case is non-trivial when its "
+                "variables are non-empty (every sequence is); distinct = distinct call specs / sequence specs")
     res.extra["fingerprints"] = common.fingerprints(ctx, fingerprint_items())
     div = clients.four_way(SHARED_METHODS)
     res.extra["four_way_textual_divergence"] = div
@@ -1059,10 +1430,16 @@ def run(ctx: Ctx, st: Optional[LeanStatus]) -> Result:
     try:
         replay_witnesses(ctx, res, rig)
         specs = [s for _, s in corpus_specs() if "query" in s] + HAND_CASES
+        seqs = [s for _, s in corpus_specs() if "steps" in s] + HAND_SEQUENCES
+        judge_sequences(ctx, st, seqs, res, rig)   # regression cases first
         rng = ctx.sub_rng("calls")
         specs += [gen_call(rng, n) for n in range(ctx.budget(2500, 40000))]
         for lo in range(0, len(specs), 2000):
             judge(ctx, st, specs[lo: lo + 2000], res, rig)
+        srng = ctx.sub_rng("sequences")
+        seqs = [gen_sequence(srng, n) for n in range(ctx.budget(500, 6000))]
+        for lo in range(0, len(seqs), 1000):
+            judge_sequences(ctx, st, seqs[lo: lo + 1000], res, rig)
     finally:
         rig.close()
     concurrency(ctx, res, rounds=ctx.budget(6, 40), width=6)
@@ -1070,6 +1447,7 @@ def run(ctx: Ctx, st: Optional[LeanStatus]) -> Result:
         "httpx: header normalisation, merge of client-level and per-request headers, multipart encoding (boundary, part order, file part headers) — observed on the captured request, not modelled",
         "pydantic: model_dump(by_alias=True, exclude_unset=True) and to_jsonable_python results are inputs of the model, computed with the real library",
         "concurrent calls on one client (asyncio.gather / threads) are exercised on the real clients; the Lean interleaving theorem is about the model's two-step call machine",
+        "what httpx does with the objects it is handed (copies the headers mapping, reads and rewinds the Upload streams) is observed on the real objects after every call, not modelled; concurrent calls never share an Upload stream (two sends reading one file object race inside httpx)",
     ]
     res.assumptions += [
         "reading: UNSET is the 'argument omitted' marker of top-level variable values; a nested UNSET or an object json.dumps(default=to_jsonable_python) cannot serialise is outside the quantifier (model has an explicit serializationError branch, compared by correspondence)",
@@ -1084,6 +1462,9 @@ def search(ctx: Ctx) -> Result:
     rig = Rig()
     try:
         rng = ctx.sub_rng("search")
+        judge_sequences(ctx, None, [s for _, s in corpus_specs() if "steps" in s] + HAND_SEQUENCES, res, rig)
+        seqs = [gen_sequence(rng, n) for n in range(3000)]
+        judge_sequences(ctx, None, seqs, res, rig)
         specs = [gen_call(rng, n) for n in range(10000)]
         for lo in range(0, len(specs), 2000):
             judge(ctx, None, specs[lo: lo + 2000], res, rig)
@@ -1093,8 +1474,35 @@ def search(ctx: Ctx) -> Result:
     return res
 
 
+def replay_sequence(spec: Dict[str, Any], cfgs: Optional[List[int]]) -> int:
+    """re-run one sequence of calls sharing argument objects against the real code"""
+    rig = Rig()
+    rc = 0
+    try:
+        for pass_cfgs in ([cfgs] if cfgs else seq_passes(spec)):
+            sb0 = SeqBuilt(spec)
+            shapes = [Shape(sb0.step(k)) for k in range(len(spec["steps"]))]
+            sb = SeqBuilt(spec)
+            base = sb.snapshot()
+            for k, cfg in enumerate(pass_cfgs):
+                kind, tracer = CONFIGS[cfg]
+                b = sb.step(k)
+                ir = rig.execute(cfg, b)
+                sig = oracle(b, shapes[k], ir) if py_valid(b, shapes[k]) else None
+                changed = changed_parts(base, sb.snapshot())
+                if changed:
+                    sig = (sig + " + " if sig else "") + "caller-arguments-modified: " + ", ".join(changed) + " " + json.dumps(sb.snapshot()["hdrs"])[:200]
+                print("call", k, kind, tracer, json.dumps(impl_summary(ir), default=repr)[:400], "->", sig or "ok")
+                rc = rc or (1 if sig else 0)
+    finally:
+        rig.close()
+    return rc
+
+
 def replay(ctx: Ctx, payload: Dict[str, Any]) -> int:
     inp = payload.get("input") or payload
+    if "sequence" in inp or "steps" in inp:
+        return replay_sequence(inp.get("sequence") or inp, inp.get("configurations"))
     if "calls" in inp:
         print("concurrency case: %d calls on one %s client (tracer=%s); replaying each call on its own" % (len(inp["calls"]), inp["kind"], inp.get("tracer")))
         specs = inp["calls"]
